@@ -606,12 +606,31 @@ def path_condition(node):
     return out
 
 
-def implied_at(repo, f, node, goal_text):
+class _TruthyLen(ast.NodeTransformer):
+    """in boolean positions, a bare sequence name means len(name) > 0"""
+
+    def __init__(self, names):
+        self.names = names
+
+    def _b(self, e):
+        if isinstance(e, ast.Name) and e.id in self.names:
+            return ast.Compare(left=ast.Call(func=ast.Name(id='len', ctx=ast.Load()), args=[e], keywords=[]), ops=[ast.Gt()], comparators=[ast.Constant(0)])
+        if isinstance(e, ast.UnaryOp) and isinstance(e.op, ast.Not):
+            return ast.UnaryOp(op=ast.Not(), operand=self._b(e.operand))
+        if isinstance(e, ast.BoolOp):
+            return ast.BoolOp(op=e.op, values=[self._b(v) for v in e.values])
+        return e
+
+
+def implied_at(repo, f, node, goal_text, truthy_len=None):
     """True / False / None: does the path condition at `node` imply the goal formula (constants literal)?"""
     from .rules import equiv, _Folder, _copy
     pcs = path_condition(node)
     parts = []
     for t, pol in pcs:
+        t = _copy(t)
+        if truthy_len:
+            t = ast.fix_missing_locations(_TruthyLen(truthy_len)._b(t))
         ft = ast.unparse(_Folder(repo, f.module, f.cls, None).visit(_copy(t)))
         parts.append('(%s)' % ft if pol else 'not (%s)' % ft)
     pc = ' and '.join(parts) if parts else 'True'
